@@ -168,7 +168,11 @@ func (d *Driver) execExtra(st *Step, b *Browser) bool {
 	case "authreq":
 		d.authReq(st, b)
 	case "backchannel":
-		d.backchannel(st, b)
+		if st.Twin != nil {
+			d.twin(st)
+		} else {
+			d.backchannel(st, b)
+		}
 	case "signout":
 		d.signOut(st, b)
 	case "restart":
